@@ -3,6 +3,7 @@ package formatter
 import (
 	"bytes"
 	"fmt"
+	"strings"
 
 	"github.com/ysugimoto/falco/v2/ast"
 )
@@ -13,7 +14,9 @@ func (f *Formatter) formatExpression(expr ast.Expression) *ChunkBuffer {
 	buf := f.chunkBuffer()
 
 	// leading comment
-	if v := f.formatComment(expr.GetMeta().Leading, "", 0); v != "" {
+	// several comments are separated by a whitespace (as they are printed around the other tokens),
+	// otherwise the next formatting gives a different result
+	if v := strings.TrimSpace(f.formatComment(expr.GetMeta().Leading, " ", 0)); v != "" {
 		buf.Write(v, Comment)
 	}
 
@@ -48,7 +51,7 @@ func (f *Formatter) formatExpression(expr ast.Expression) *ChunkBuffer {
 	}
 
 	// trailing comment
-	if v := f.formatComment(expr.GetMeta().Trailing, "", 0); v != "" {
+	if v := strings.TrimSpace(f.formatComment(expr.GetMeta().Trailing, " ", 0)); v != "" {
 		buf.Write(v, Comment)
 	}
 
